@@ -205,7 +205,7 @@ func propUnit(r *vlib.Run, vec []uint32, i, logN int, st *propStats) {
 		// probabilities, so the proportionality clause is not established for this vector: reported, not assumed
 		st.offGrid++
 		r.Violate(fmt.Sprintf("prop/selection-off-grid/w=%s", vecText(vec)),
-			fmt.Sprintf("weights %s: the real Wrs.Add/ARecord does not take exactly one draw per candidate (%s; first seen with draws %v): the grid over %d draws does not bound its probabilities, so P(served) = w_i/sum(w) cannot be established for this weight vector",
+			fmt.Sprintf("weights %s: the real Wrs.Add/ARecord leaves the model the grid is built on - exactly one draw per candidate, no panic (%s; first seen with draws %v): the grid over %d draws does not bound its probabilities, so P(served) = w_i/sum(w) cannot be established for this weight vector",
 				vecText(vec), offGrid.what, offGrid.draws, len(vec)),
 			map[string]interface{}{"part": "prop", "weights": vec, "candidate": i, "logN": logN})
 	}
